@@ -98,7 +98,7 @@ func concOps() []cop {
 		{"rename", memfs.ClassGlob, "RenameAt", 'f', '*', true, func(p *rawpeer.Peer, tag uint16, fid, aux uint64, ch string) {
 			p.Send(wire.Trename, tag, fid, aux, fmt.Sprintf("rn%d", tag))
 		}},
-		{"remove", memfs.ClassWrite, "UnlinkAt", 'f', '*', true, func(p *rawpeer.Peer, tag uint16, fid, aux uint64, ch string) {
+		{"remove", memfs.ClassWrite, "UnlinkAt", 'f', '*', false, func(p *rawpeer.Peer, tag uint16, fid, aux uint64, ch string) {
 			p.Send(wire.Tremove, tag, fid)
 		}},
 		{"statfs", memfs.ClassNone, "StatFS", '*', '*', false, func(p *rawpeer.Peer, tag uint16, fid, aux uint64, ch string) {
@@ -248,6 +248,7 @@ type rvOutcome struct {
 	bReply    rawpeer.Result
 	aCall     *memfs.Call
 	bCalls    []*memfs.Call
+	ta, tb    ctarget // the targets as they were when A and B ran (after the history)
 }
 
 // rendezvous parks A inside the backend, issues B, observes B, releases A.
@@ -340,6 +341,7 @@ func rendezvousAfter(c *ev.Ctx, w *concWorld, a cop, ta ctarget, b cop, tb ctarg
 	if !ok1 || !ok2 {
 		return out, false
 	}
+	out.ta, out.tb = ta, tb
 	w.fs.Overlaps()
 	gate := w.fs.Hold(memfs.Match{Method: a.method, Fn: func(cl *memfs.Call) bool {
 		switch a.name {
